@@ -33,7 +33,7 @@ m = {
  },
  'engines': [
   {'name': 'dsim', 'path': 'sim/', 'serves_properties': ['C09', 'C14'],
-   'kind_free_text': 'purpose-built deterministic simulator: fork-per-run of a never-used interpreter, baton-passing real threads pre-empted at sys.settrace line events / cache-dict seam / user-function seam, seeded plan generator, fault injectors (f raises, async abort at a library line, cache clear/evict/prewarm/flood, drop+gc+respawn, re-entrancy), hot-line biased pre-emption with atomicity probe, fork-server (identical-heap, no-ASLR) isolation of every run and of every fresh-state reference, delta-debugging shrinker, replay files'},
+   'kind_free_text': 'purpose-built deterministic simulator: every run and every reference is a fork of one of four identical, stationary fork servers of a never-used interpreter (canonical re-exec image, ASLR off); baton-passing real threads pre-empted at sys.settrace line events, mid-line at Python-level calls made from library lines, at the cache-dict seam, the user-function seam and at cooperative library locks; two-stage schedule search (seeded random/PCT-style schedules, then conflict-directed schedules derived from the recorded touches of process-shared objects); seeded plan generator, fault injectors (f raises, async abort at a library line, cache clear/evict/prewarm/flood, drop+gc+respawn, re-entrancy), hot-line biased pre-emption with atomicity probe, fork-server (identical-heap, no-ASLR) isolation of every run and of every fresh-state reference, delta-debugging shrinker, replay files'},
  ],
  'checks': [
   {
@@ -46,9 +46,9 @@ m = {
    'technique': 'deterministic simulation with fault injection: seeded search over operation histories, thread schedules and fault sequences, bit-for-bit against fresh-interpreter-state references',
    'level_claimed': {
      'category': 'exploration',
-     'text': 'Seeded exploration of histories (<=12 ops per caller: construct, call, set/restore n/order/method, shared step generators, cache clear/evict/prewarm, drop+gc, re-entrant functions), of schedules (1..16 baton-passing threads pre-empted at library source lines, cache accesses and user-function boundaries) and of fault sequences (f raising at its k-th evaluation, asynchronous abort at the j-th library line). Every un-faulted call is compared bit-for-bit with two references evaluated in forks of a never-used interpreter: the same object rebuilt with only its own setter sequence, and a brand-new object with the current configuration. Sampling, not proof; the property quantifies over histories and schedules, which is exactly what is sampled.',
+     'text': 'Seeded exploration of histories (<=12 ops per caller: construct, call, set/restore n/order/method, shared step generators, cache clear/evict/prewarm, drop+gc, re-entrant functions), of schedules (1..16 baton-passing threads pre-empted at library source lines, cache accesses and user-function boundaries) and of fault sequences (f raising at its k-th evaluation, asynchronous abort at the j-th library line, cache clear/evict/prewarm/flood, drop+gc+respawn); a second stage replays each threaded run up to a recorded touch of a shared object, parks that caller and lets the conflicting callers run to completion inside the window. Every un-faulted call is compared bit-for-bit with two references evaluated in forks of a never-used interpreter: the same object rebuilt with only its own setter sequence, and a brand-new object with the current configuration. Sampling, not proof; the property quantifies over histories and schedules, which is exactly what is sampled.',
      'design_ref': 'DESIGN.md sections 3 and 4'},
-   'level_note': 'Trusts: sys.settrace line events deterministic; fork() faithfully copies pristine state; numpy/scipy bit-reproducible single-threaded (re-tested each run by the determinism self-test). Pre-emption granularity is a source line or a seam access, not a bytecode.',
+   'level_note': 'Trusts: sys.settrace line/call events deterministic; fork() faithfully copies the pristine fork-server state; numpy/scipy bit-reproducible single-threaded (re-tested each run by the determinism self-test, which also fingerprints the allocator state). Pre-emption granularity is a source line, a Python-level call made from a library line, or a seam access - not a bytecode; C-level callees give no pre-emption point. Asynchronous aborts are injected at library line boundaries outside `with` lines and outside library critical sections.',
   },
  ],
  'not_applicable': [{'property_id': k, 'reason': v} for k, v in sorted(NA.items())],
